@@ -10,6 +10,7 @@ Definition wf (x : num) : Prop :=
   match x with Fix z => - FIXMAX - 1 <= z <= FIXMAX | Big s ws => wfb s ws end.
 
 Lemma FIX_lt_B : FIXMAX + 1 < B.  Proof. reflexivity. Qed.
+Lemma FIXMAX_eq_pow : FIXMAX = 2 ^ 62 - 1.  Proof. reflexivity. Qed.
 Lemma sext_neg : sext (-1) = WMAX.  Proof. reflexivity. Qed.
 Lemma sext_pos : sext 1 = 0.  Proof. reflexivity. Qed.
 Lemma WMAX_ge_HALF : (WMAX >=? HALF) = true.  Proof. reflexivity. Qed.
